@@ -16,6 +16,7 @@ def _sample(gen, limit_quick, limit_thorough):
             cs = [cs[i] for i in idx]
         return cs
     g.__name__ = "sample_" + gen.__name__
+    g.__module__ = getattr(gen, "__module__", "")
     return g
 
 
@@ -25,15 +26,18 @@ class Cross(Prop):
     @property
     def gens(self):
         out = list(self.own_gens)
-        seen = set(g.__name__ for g in out)
+        key = lambda g: (getattr(g, "__module__", ""), g.__name__)
+        seen = set(key(g) for g in out)
         for pid in sorted(REGISTRY):
             p = REGISTRY[pid]
             if isinstance(p, Cross):
                 continue
             for g in p.gens:
-                if g.__name__ not in seen:
-                    seen.add(g.__name__)
-                    out.append(_sample(g, 250, 4000))
+                if key(g) not in seen:
+                    seen.add(key(g))
+                    # the pure, cheap streams (strings, relocations) in full: their rare corners (zero
+                    # thresholds, 2^16 runs) must not be lost to sampling
+                    out.append(g if pid in ("C20", "C14") else _sample(g, 250, 4000))
         return out
 
     def judge(self, op, impl, model, spec):
@@ -67,6 +71,7 @@ class C01(Cross):
 
 
 class C02(Cross):
+    release_check = True        # "checked (debug) and optimized builds"
     pid = "C02"
     title = "totality"
     thm_modules = ["PeliteModel.Thm.C02"]
